@@ -291,6 +291,13 @@ theorem C38_export_ok (s : Shard) (a e : TS)
       simp [hbo] at this
     · exact ⟨_, rfl⟩
 
+/-- why the tombstones are lost: with the constants of the current source, a name
+    ending in `.tombstone` fails the suffix test of `readFileFromBackup`, a `.tsm` name passes -/
+theorem C38_tombstone_name_skipped :
+    restoresName ("000000001-000000001." ++ Influx.Generated.BackupConsts.TombstoneFileExtension) = false ∧
+    restoresName ("000000001-000000001." ++ Influx.Generated.BackupConsts.TSMFileExtension) = true := by
+  decide +kernel
+
 /-! ### the statement checker on the model's own traces -/
 
 /-- **C38_holdsOn (partial)**: on every trace of the model — any sequence of writes,
